@@ -221,6 +221,12 @@ def gen_c10_extra(ctx, thorough):
             steps = req(5) + ([finish(5, kind='stream', n=100000)] if handler_done_first else []) + [{"op": "burst", "steps": [off] + burst}]
             steps += ([] if handler_done_first else [finish(5, n=2)]) + [{"op": "expectreturn", "ms": 2500}]
             out.append({'tag': 'trailsl-' + name, 'cfg': {'maxConc': 4}, 'steps': steps})
+        # the peer has stopped reading (its receive buffer is full of a large response) when the stream loop
+        # ends the connection, and it goes on sending frames the read loop answers in place
+        steps = [{"op": "settings", "pairs": [[4, 10000000]]}, {"op": "wu", "sid": 0, "inc": 10000000}] + req(5) + req(9) + \
+                [{"op": "stopread"}, finish(9, kind='stream', n=3000000), {"op": "settle"}, off,
+                 {"op": "burst", "steps": [{"op": "ping", "n": i} for i in range(50)]}, {"op": "settle"}, {"op": "expectreturn", "ms": 3000}]
+        out.append({'tag': 'trailsl-noread-' + name, 'cfg': {'maxConc': 4, 'outCap': 8192}, 'steps': steps})
         steps = req(5) + [{"op": "stopread"}, off, {"op": "burst", "steps": burst}, {"op": "settle"}, {"op": "expectreturn", "ms": 3000}]
         out.append({'tag': 'trail-noread-' + name, 'cfg': {'maxConc': 4, 'outCap': 4096}, 'steps': steps})
     return out
